@@ -52,7 +52,8 @@ pub const F_WEAK_IN_VALUE_DROPPED: u32 = 10;
 pub const F_INC_DEC: u32 = 11;
 pub const F_OVER_ALIGNED: u32 = 12;
 pub const F_CLONE_PANIC: u32 = 13;
-pub const NAMES: [&str; 14] = [
+pub const F_MISC_TYPES: u32 = 14;
+pub const NAMES: [&str; 15] = [
     "value_with_nested_handles_destroyed",
     "weak_observed_after_death",
     "try_unwrap_ok",
@@ -67,6 +68,7 @@ pub const NAMES: [&str; 14] = [
     "inc_dec_strong_count",
     "over_aligned_payload",
     "make_mut_with_panicking_clone",
+    "other_payload_types",
 ];
 
 /// Alignment fillers of the over-aligned payload variants.
@@ -124,6 +126,9 @@ pub trait Fam: Sized + 'static {
     fn w_ptr_eq(a: &Self::W, b: &Self::W) -> bool;
     fn w_as_ptr(w: &Self::W) -> *const Val<Self>;
     fn w_fmt(w: &Self::W) -> String;
+    /// the shared API on other payload types (non-reflexive equality, zero
+    /// size, sizes that are not a multiple of the alignment of the header)
+    fn misc(ty: u8, a: u8, b: u8, same: bool) -> String;
 }
 
 pub struct Val<F: Fam> {
@@ -339,6 +344,70 @@ macro_rules! impl_fam {
             fn w_fmt(w: &Self::W) -> String {
                 format!("{:?}", w)
             }
+            fn misc(ty: u8, a: u8, b: u8, same: bool) -> String {
+                #[allow(clippy::all)]
+                fn one<T: PartialEq + PartialOrd + std::fmt::Debug + Clone>(x: T, y: T, z: T, same: bool) -> String {
+                    let a = $rc::new(x);
+                    let b = if same { $rc::clone(&a) } else { $rc::new(y) };
+                    let mut s = format!(
+                        "eq={} ne={} lt={} le={} gt={} ge={} pcmp={:?} ptr_eq={} dbg={:?}",
+                        a == b,
+                        a != b,
+                        a < b,
+                        a <= b,
+                        a > b,
+                        a >= b,
+                        a.partial_cmp(&b),
+                        $rc::ptr_eq(&a, &b),
+                        a
+                    );
+                    let w = $rc::downgrade(&a);
+                    s += &format!(" sc={} wc={}", $rc::strong_count(&a), $rc::weak_count(&a));
+                    let p = $rc::into_raw(a);
+                    let a = unsafe { $rc::from_raw(p) };
+                    s += &format!(" raw_rt={}", $rc::as_ptr(&a) == p && std::ptr::eq(&*a, p));
+                    let wp = w.into_raw();
+                    let w = unsafe { $weak::from_raw(wp) };
+                    s += &format!(" wraw={} up={}", wp == p, w.upgrade().is_some());
+                    let w2 = w.clone();
+                    s += &format!(" w_ptr_eq={} wsc={} wwc={}", w.ptr_eq(&w2), w.strong_count(), w.weak_count());
+                    drop(w2);
+                    let mut a = a;
+                    s += &format!(" get_mut={}", $rc::get_mut(&mut a).is_some());
+                    let _ = $rc::make_mut(&mut a);
+                    s += &format!(
+                        " after_make_mut sc={} wc={} up={} moved={} val={:?}",
+                        $rc::strong_count(&a),
+                        $rc::weak_count(&a),
+                        w.upgrade().is_some(),
+                        $rc::as_ptr(&a) != p,
+                        a
+                    );
+                    drop(b);
+                    let w3 = $rc::downgrade(&a);
+                    s += &format!(" unwrap={:?}", $rc::try_unwrap(a).ok());
+                    s += &format!(" w sc={} wc={} w3 up={} sc={}", w.strong_count(), w.weak_count(), w3.upgrade().is_some(), w3.strong_count());
+                    let fb: $rc<T> = $rc::from(Box::new(z.clone()));
+                    let ft: $rc<T> = $rc::from(z);
+                    s += &format!(" from_t eq={} dbg={:?}", fb == ft, ft);
+                    s += &format!(" from_box sc={}", $rc::strong_count(&fb));
+                    s
+                }
+                fn run<T: PartialEq + PartialOrd + std::fmt::Debug + Clone>(x: T, y: T, same: bool) -> String {
+                    let z = y.clone();
+                    one(x, y, z, same)
+                }
+                const F: [f64; 6] = [f64::NAN, 0.0, -0.0, 1.5, f64::INFINITY, -2.0];
+                match ty % 7 {
+                    0 => run(F[a as usize % 6], F[b as usize % 6], same),
+                    1 => run(F[a as usize % 6] as f32, F[b as usize % 6] as f32, same),
+                    2 => run(a, b, same),
+                    3 => run((), (), same),
+                    4 => run([a, b, 3], [b, a, 3], same),
+                    5 => run(Some(F[a as usize % 6]), if b % 5 == 0 { None } else { Some(F[b as usize % 6]) }, same),
+                    _ => run((a, F[b as usize % 6] as f32), (b, F[a as usize % 6] as f32), same),
+                }
+            }
         }
     };
 }
@@ -399,6 +468,9 @@ pub enum POp {
     DropLoose(u16),
     AsPtrRel(u16, u16),
     Borrow(u16),
+    /// the shared API on a small payload type other than `Val` (f64 with NaN,
+    /// f32, u8, (), [u8; 3], Option<f64>, (u8, f32))
+    Misc { ty: u8, a: u8, b: u8, same: bool },
 }
 
 #[derive(Clone, Debug, PartialEq, Eq, Serialize, Deserialize)]
@@ -725,6 +797,10 @@ fn step<F: Fam>(s: &mut State<F>, op: &POp, i: usize) {
             let k = root!(h);
             s.obs.push(format!("{}: borrow {:?}", i, F::borrow_id(&s.roots[k])));
         }
+        POp::Misc { ty, a, b, same } => {
+            flag(F_MISC_TYPES);
+            s.obs.push(format!("{}: misc {}", i, F::misc(ty, a, b, same)));
+        }
     }
 }
 
@@ -763,6 +839,7 @@ fn pop_strategy() -> BoxedStrategy<POp> {
         2 => s().prop_map(POp::DropLoose),
         1 => (s(), s()).prop_map(|(a, b)| POp::AsPtrRel(a, b)),
         1 => s().prop_map(POp::Borrow),
+        2 => (any::<u8>(), any::<u8>(), any::<u8>(), any::<bool>()).prop_map(|(ty, a, b, same)| POp::Misc { ty, a, b, same }),
     ]
     .boxed()
 }
